@@ -17,9 +17,12 @@ var c18States = []string{"empty", "fresh", "stale", "stale+must-revalidate", "no
 	"stale+swr", "stale+sie", "other-variant", "vary-star", "bad-entry", "bad-index", "get-error", "fresh+must-revalidate", "stale-heuristic", "fresh+immutable", "stale+immutable"}
 
 func runC18(x *mc.X) {
+	// (chosen first, so that in depth-first order a primed execution is not immediately preceded by the very
+	// same only-if-cached request: state that an implementation keeps per process would otherwise be re-primed)
+	primed := x.Choose("primed-by-similar-request", 2) == 1
 	state := mc.Pick(x, "state", c18States)
 	extra := x.Choose("extra-directives", 64)
-	spelling := mc.Pick(x, "spelling", []string{"canonical", "upper", "second-line", "extension-mixed"})
+	spelling := mc.Pick(x, "spelling", []string{"canonical", "upper", "second-line", "extension-mixed", "after-quoted-backslash"})
 	w := world.New(world.Opt{})
 	defer w.Close()
 
@@ -112,6 +115,20 @@ func runC18(x *mc.X) {
 		req.Header.Add("Cache-Control", oic)
 	case "extension-mixed":
 		req.Header.Set("Cache-Control", cc(append(append([]string{`foo="a,b"`}, ds...), oic, "bar=1")...))
+	case "after-quoted-backslash": // a quoted-string whose last character is an escaped backslash, and one with an escaped quote
+		req.Header.Set("Cache-Control", cc(append(append([]string{`root="C:\\"`, `q="a\"b"`}, ds...), oic)...))
+	}
+	if primed {
+		// the same client just sent a request whose Cache-Control equals this one's first field line (without
+		// only-if-cached), to another resource — nothing of that may carry over
+		first := req.Header.Values("Cache-Control")[0]
+		first = strings.TrimSuffix(strings.TrimSuffix(strings.ReplaceAll(first, "only-if-cached, ", ""), ", only-if-cached"), "only-if-cached")
+		answer(w, RS{Status: 200, H: H("Cache-Control", "no-store")})
+		pr := world.Req("GET", "http://example.com/elsewhere")
+		if strings.TrimSpace(first) != "" {
+			pr.Header.Set("Cache-Control", first)
+		}
+		logObs(x, fmt.Sprintf("priming GET elsewhere Cache-Control=%q", first), w.Do(pr))
 	}
 	// the origin would answer with a fresh, storable 200 — any contact is visible.
 	answer(w, RS{Status: 200, H: H("Cache-Control", "max-age=100", "ETag", `"v2"`)})
